@@ -67,6 +67,17 @@ class FeatTable(ModelObj):
         self.feat = z3.Store(self.feat, ke, to_z3(v[0], Val))
         self.act = z3.Store(self.act, ke, to_z3(v[1], Bool))
 
+    # --- as the source of a dict comprehension over .items(): key k, value (feat[k], act[k])
+    ksort = Key
+
+    def comp_value(self, kv):
+        return (Sym(S(self.feat, kv)), Sym(S(self.act, kv)))
+
+    def do_items(self, I):
+        out = SymList(z3.IntVal(0), lambda i: None)
+        out.src_dict, out.src_kind = self, "items"
+        return out
+
     def do_update(self, I, other):
         if not isinstance(other, FeatTable):
             raise Unsupported("feature table update")
